@@ -42,7 +42,14 @@ def judge(c, calls, scen_by_id, name="outcome-contract"):
     """TLC evaluates spec/Outcome.tla on every call record; rejected ones are re-run alone and reported."""
     if not calls.rec:
         raise vf.FrameworkError("no call records")
-    nd = "\n".join(json.dumps({k: v for k, v in r.items() if k != "panic"}, separators=(",", ":")) for _, _, r in calls.rec) + "\n"
+    # TLC integers are 32-bit: numbers are clamped (2^30 for byte counts and times, 2^24 for the input length, which is multiplied by the per-byte factors)
+    def clamp(r):
+        o = {k: v for k, v in r.items() if k != "panic"}
+        for k in ("alloc", "ms", "read", "retained"):
+            o[k] = min(int(o.get(k, 0)), 1 << 30)
+        o["len"] = min(int(o.get("len", 0)), 1 << 24)
+        return o
+    nd = "\n".join(json.dumps(clamp(r), separators=(",", ":")) for _, _, r in calls.rec) + "\n"
     r = c.tlc("Outcome", "outcome.cfg", files={"calls.ndjson": nd}, name=name, timeout=3000, heap="12g")
     if r.distinct != 2 * len(calls.rec):
         raise vf.FrameworkError("TLC judged %d of %d calls" % (r.distinct // 2, len(calls.rec)))
